@@ -167,7 +167,7 @@ pub fn run(ctx: &Ctx) {
          must be read; every get_tile_by_id(_async) must read exactly [offset, offset+length) of that tile. Non-trivial: tile data is not the last section, or a gap follows a \
          directory section; distinct by digest.",
     );
-    run_proptest(ctx, "recorded-reads", PtCfg::new(ctx.lanes, ctx.tier.pick(600, 8000)), || strategy(ctx.tier.pick(200, 1500)), check);
+    run_proptest(ctx, "recorded-reads", PtCfg::new(ctx.lanes, ctx.tier.pick(600, 30_000)), || strategy(ctx.tier.pick(200, 1500)), check);
     for c in ["tile-data-not-last", "gap-after-directory-section", "with-leaves", "async", "sync", "partial-open", "lookups", "short-reads", "retry-after-transient-fault", "internal-brotli", "internal-zstd", "internal-gzip", "internal-none"] {
         ctx.rec.floor(c, 20);
     }
